@@ -65,6 +65,8 @@ class D(RenderDriver):
                     r = RSK.min_curvature_radius(lf.cmds, near=pl, within=2.0 * w)
                     if r < w:
                         return "skia-stroker-tight-curvature"
+                    if RSK.has_retraced_edge(lf.cmds):
+                        return "skia-stroke-of-retraced-edge"
         except Exception:
             return None
         return None
